@@ -1,14 +1,203 @@
-import MuduoVerif.Proofs.Timer
-/-! # C07 — cancel is final and never disturbs another timer; no freed timer is read -/
+import MuduoVerif.Proofs.TimerProps
+/-!
+# C07 — cancel() stops a timer for good and never disturbs any other timer; no freed timer is read
+
+Property theorems only (lemmas: `Proofs/Timer*.lean`).  Quantification as in C06: every theorem about `run ins` holds for
+every input list of the timer-engine model — adds and cancels from the loop thread, from callbacks (self-cancel,
+cancel of another timer of the same batch, of a pending timer, of a dead one) and from foreign threads (queued
+`cancelInLoop` functors; `addTimer` split at the hand-over point), stale and default ids, address reuse chosen by the
+environment (`In.addr`), every clock reading, every firing of the timerfd.
+
+`cancelInLoop` records `Ev.cancel addr seq inBatch found` (`inBatch` = `callingExpiredTimers_`, `found` = the pair was in
+`activeTimers_`, i.e. the timer was pending and not part of the batch being run).  `after m p t` counts the events
+satisfying `p` that come after the oldest point of the trace `t` at which `m` became true (`Proofs/TimerCancelTr.lean`).
+-/
 namespace MuduoVerif.C07
 open MuduoVerif.Timer MuduoVerif.Gen.Timer
 
-/-- `cancel_noop`: a cancel whose (pointer, sequence) pair is not active (the timer already ran, was already
+/-! ### cancel_noop -/
+
+/-- **cancel_noop**: a cancel whose (pointer, sequence) pair is not active (the timer already ran, was already
 cancelled, the id is default-constructed or stale) outside an expiry batch changes nothing but the ghost record
 that it was processed. -/
 theorem cancel_noop (s : TQ) (id : TimerId) (h : (id.addr, id.seq) ∉ s.active) (hc : s.calling = false) :
     cancelInLoop s id = emit s (.cancel id.addr id.seq false false) := by
   unfold cancelInLoop
   simp [emit, cancelErases, cancelRemembers, h, hc]
+
+/-- ... and inside an expiry batch it only remembers the pair in `cancelingTimers_`: both sets, the heap and the
+timerfd stay as they are -/
+theorem cancel_noop_in_batch (s : TQ) (id : TimerId) (h : (id.addr, id.seq) ∉ s.active) (hc : s.calling = true) :
+    cancelInLoop s id = { emit s (.cancel id.addr id.seq true false) with cancelling := (id.addr, id.seq) :: s.cancelling } := by
+  unfold cancelInLoop
+  simp [emit, cancelErases, cancelRemembers, h, hc]
+
+/-- a default-constructed `TimerId` and an id whose timer is dead (ran as a one-shot, was cancelled) are never active in a
+reachable state, whatever lives at the address now -/
+theorem inactive_ids (ins : List In) :
+    (TimerId.dflt.addr, TimerId.dflt.seq) ∉ (run ins).active ∧
+    ∀ a q, (∀ c, (run ins).heap a = some c → c.seq ≠ q) → (a, q) ∉ (run ins).active := by
+  have hw := (run_top ins).wf
+  refine ⟨?_, ?_⟩
+  · intro hm
+    obtain ⟨c, h1, _, _⟩ := hw.a_live _ hm
+    exact absurd (hw.addr_ok _ _ h1).1 (by decide)
+  · intro a q hd hm
+    obtain ⟨c, h1, h2, _⟩ := hw.a_live _ hm
+    exact hd c h1 h2
+
+/-! ### identity -/
+
+/-- **identity**: in every reachable state, `cancel(addr, seq)` removes a timer only if the live `Timer` at `addr` has
+the sequence number `seq`; every other pending timer — in particular a later one that reuses `addr` — keeps its entry in
+both sets and its cell; and if the pair is not active nothing in the queue changes at all -/
+theorem identity (ins : List In) (id : TimerId) :
+    ((id.addr, id.seq) ∈ (run ins).active → ∃ c, (run ins).heap id.addr = some c ∧ c.seq = id.seq) ∧
+    (∀ p ∈ (run ins).active, p ≠ (id.addr, id.seq) →
+      p ∈ (cancelInLoop (run ins) id).active ∧ (cancelInLoop (run ins) id).heap p.1 = (run ins).heap p.1 ∧
+      ∀ c, (run ins).heap p.1 = some c → (c.exp, p.1) ∈ (cancelInLoop (run ins) id).timers) ∧
+    ((id.addr, id.seq) ∉ (run ins).active →
+      (cancelInLoop (run ins) id).timers = (run ins).timers ∧ (cancelInLoop (run ins) id).active = (run ins).active ∧
+      (cancelInLoop (run ins) id).heap = (run ins).heap ∧ (cancelInLoop (run ins) id).alarm = (run ins).alarm ∧
+      (cancelInLoop (run ins) id).readable = (run ins).readable) := by
+  have hw := (run_top ins).wf
+  have hl : (id.addr, id.seq) ∈ (run ins).active → ((run ins).heap id.addr).isSome := by
+    intro hm
+    obtain ⟨c, h1, _⟩ := hw.a_live _ hm
+    exact isSome_of_eq h1
+  refine ⟨?_, ?_, ?_⟩
+  · intro hm
+    obtain ⟨c, h1, h2, _⟩ := hw.a_live _ hm
+    exact ⟨c, h1, h2⟩
+  · intro p hp hne
+    obtain ⟨c, h1, h2, h3⟩ := hw.a_live p hp
+    rw [cancelInLoop_eq id hl]
+    split
+    · rename_i hm
+      obtain ⟨c0, g1, g2, _⟩ := hw.a_live _ hm
+      have hpa : p.1 ≠ id.addr := by
+        intro hh
+        have g1 : (run ins).heap id.addr = some c0 := g1
+        rw [hh, g1] at h1; cases h1
+        exact hne (Prod.ext hh (h2.symm.trans g2))
+      refine ⟨List.mem_filter.2 ⟨hp, by simpa using hne⟩, hfree_other _ hpa, ?_⟩
+      intro c' hc'
+      rw [h1] at hc'; cases hc'
+      refine List.mem_filter.2 ⟨h3, ?_⟩
+      simp only [ne_eq, decide_eq_true_eq]
+      intro hh; exact hpa (Prod.mk.inj hh).2
+    · split
+      · exact ⟨hp, rfl, fun c' hc' => by rw [h1] at hc'; cases hc'; exact h3⟩
+      · exact ⟨hp, rfl, fun c' hc' => by rw [h1] at hc'; cases hc'; exact h3⟩
+  · intro hm
+    rw [cancelInLoop_eq id hl, if_neg hm]
+    split <;> exact ⟨rfl, rfl, rfl, rfl, rfl⟩
+
+/-- sequence numbers: every live `Timer` has a sequence number in 1..`s_numCreated_`, different live timers have
+different ones, and a new `Timer` gets `s_numCreated_ + 1` (`created_deadline` of C06) — so an id never matches a later
+timer at the same address -/
+theorem seq_unique (ins : List In) :
+    (∀ a c, (run ins).heap a = some c → 0 < c.seq ∧ c.seq ≤ (run ins).numCreated) ∧
+    (∀ a a' c c', (run ins).heap a = some c → (run ins).heap a' = some c' → c.seq = c'.seq → a = a') :=
+  ⟨(run_top ins).wf.seq_le, (run_top ins).wf.seq_inj⟩
+
+/-- `s_numCreated_` never decreases -/
+theorem seq_increasing (ins : List In) (i : In) : (run ins).numCreated ≤ (run (ins ++ [i])).numCreated := by
+  rw [run_snoc]; exact step_numCreated (run_top ins) i
+
+/-! ### no_uaf -/
+
+/-- the order extracted from `TimerQueue::addTimer` (T1): the sequence number is read before the timer is handed to
+the loop.  The proof of `no_uaf` depends on it (with `true` a parked foreign `addTimer` reads a freed `Timer`: F4). -/
+theorem addTimer_reads_sequence_first : addTimerDerefsAfterHandOver = false := rfl
+
+/-- **no_uaf**: no step of any history dereferences a freed `Timer` -/
+theorem no_uaf (ins : List In) (a : Addr) : Ev.uaf a ∉ (run ins).trace := (run_top ins).wf.no_uaf a
+
+/-! ### cancel_final -/
+
+/-- after a processed `cancel(a, q)` — one that counts: any (`needReg = false`) or one processed when the timer was
+registered (`needReg = true`) —: if it found the timer pending or was processed outside a batch, the timer never runs and
+is never restarted afterwards; in any case it runs at most once more (the invocation of the running batch) and is never
+restarted -/
+def cancelFinalStmt (needReg : Bool) : Prop :=
+  ∀ (ins : List In) (a : Addr) (q : Nat),
+    after (markOut needReg a q) (isRunOf q) (run ins).trace = 0 ∧
+    after (markOut needReg a q) (isRestartOf q) (run ins).trace = 0 ∧
+    after (markAll needReg a q) (isRunOf q) (run ins).trace ≤ 1 ∧
+    after (markAll needReg a q) (isRestartOf q) (run ins).trace = 0
+
+/-- the full statement of the property: every processed cancel counts -/
+def cancel_final_full : Prop := cancelFinalStmt false
+
+/-- **cancel_final_partial**: `cancel_final` for cancels processed when the timer is registered (its `addTimerInLoop` has
+run); a cancel that found the timer pending always counts -/
+theorem cancel_final_partial : cancelFinalStmt true := by
+  intro ins a q
+  have hb := (run_cf ins a q).bounds
+  exact ⟨hb.1, hb.2.1, hb.2.2.2, hb.2.2.1⟩
+
+/-- the full statement is false (F21): a foreign thread's `addTimer` is still queued when the loop thread cancels the id
+it returned: the cancel finds nothing, the timer is registered afterwards and runs
+(corpus/C07/F21-loop-cancel-overtakes-foreign-add.case) -/
+theorem cancel_final_fails_witness : ¬ cancel_final_full := by
+  intro h
+  have := (h [.addr 16, .add .foreign 1 (.at 1000), .cancel .loop (some 1) 1, .iter, .expire, .now 1000, .iter] 16 1).1
+  revert this
+  decide
+
+/-- split form, pending timer: once a cancel has found the timer in `activeTimers_` (whether issued from the loop
+thread, a foreign thread or a callback — also a callback of a batch the timer is not part of), no run and no restart of
+it follows -/
+theorem cancel_pending_final (ins : List In) (post pre : List Ev) (a : Addr) (q : Nat) (ib : Bool)
+    (h : (run ins).trace = post ++ .cancel a q ib true :: pre) :
+    post.countP (isRunOf q) = 0 ∧ post.countP (isRestartOf q) = 0 := by
+  have hm : markOut true a q (.cancel a q ib true :: pre) = true := by simp [markOut, isCancelFound]
+  have h1 := countP_le_after (markOut_mono true a q) (isRunOf q) post hm
+  have h2 := countP_le_after (markOut_mono true a q) (isRestartOf q) post hm
+  rw [← h] at h1 h2
+  have := cancel_final_partial ins a q
+  omega
+
+/-- split form, registered timer: after a cancel processed when the timer was registered, at most one run follows
+(none if the cancel was processed outside an expiry batch) and no restart: a repeating timer cancelled from its own
+callback or from another callback of the same batch is not re-inserted -/
+theorem cancel_registered_final (ins : List In) (post pre : List Ev) (a : Addr) (q : Nat) (ib f : Bool) (e : Time)
+    (h : (run ins).trace = post ++ .cancel a q ib f :: pre) (hreg : Ev.registered a q e ∈ pre) :
+    post.countP (isRunOf q) ≤ 1 ∧ (ib = false → post.countP (isRunOf q) = 0) ∧ post.countP (isRestartOf q) = 0 := by
+  have hr : regB a q pre = true := by
+    unfold regB; rw [List.any_eq_true]; exact ⟨_, hreg, by simp [isReg]⟩
+  have hm : markAll true a q (.cancel a q ib f :: pre) = true := by simp [markAll, isCancel, qual, hr]
+  have h1 := countP_le_after (markAll_mono true a q) (isRunOf q) post hm
+  have h2 := countP_le_after (markAll_mono true a q) (isRestartOf q) post hm
+  rw [← h] at h1 h2
+  have hp := cancel_final_partial ins a q
+  refine ⟨by omega, ?_, by omega⟩
+  intro hib
+  subst hib
+  have hm' : markOut true a q (.cancel a q false f :: pre) = true := by simp [markOut, isCancelIdle, qual, hr]
+  have h3 := countP_le_after (markOut_mono true a q) (isRunOf q) post hm'
+  rw [← h] at h3
+  omega
+
+/-- whenever the loop may go back to `poll`, a timer whose cancel was processed while it was registered is in neither
+set and has no live `Timer` any more -/
+theorem cancelled_is_gone (ins : List In) (a : Addr) (q : Nat) (h : markAll true a q (run ins).trace = true) :
+    (∀ x c, (run ins).heap x = some c → c.seq ≠ q) ∧ (∀ x, (x, q) ∉ (run ins).active) := by
+  have hd := (run_cf ins a q).dead_of_mark h
+  refine ⟨hd, ?_⟩
+  intro x hm
+  obtain ⟨c, h1, h2, _⟩ := (run_top ins).wf.a_live _ hm
+  exact hd x c h1 h2
+
+/-- the hypotheses are satisfiable, and the corpus witnesses behave as the property says: the repeating timer 2 is
+cancelled by the callback of timer 1 of the same batch (W2): it still runs the invocation that was due, once, and is not
+restarted; the cancel is recorded as `inBatch`, not `found` -/
+example :
+    (run [.addr 16, .addr 32, .now 0, .now 0, .script 1 (some 1) (.cancel (some 2)), .add .loop 1 (.every 1000 true),
+      .add .loop 2 (.every 1000 true), .expire, .now 1000, .iter]).trace.filter
+        (fun ev => isCancel 32 2 ev || isRunOf 2 ev || isRestartOf 2 ev || isRestartOf 1 ev) =
+      [.restarted 16 1 2000, .run 2 2 1 32 true 1000 1000 1000 1000 1000, .cancel 32 2 true false] := by
+  decide
 
 end MuduoVerif.C07
